@@ -167,11 +167,11 @@ def oracle(case, obs):
         readings = [_fr(x) for x in o["readings"]]
         # Tolerance.  Dyadic cases: every float operation of the run is exact, so none.  Otherwise binary64
         # rounding is the named residue of the Z theorems: each clock operation may be off by one ulp of the
-        # clock's magnitude (0.24 us at epoch-sized readings), so allow 4 ulp per reading and cycle so far.
+        # clock's (or the true time counter's) magnitude (0.24 us at epoch-sized readings), so allow 4 ulp per reading and cycle so far.
         if case.get("exact"):
             unit = Fraction(0)
         else:
-            big = max([abs(x) for x in readings] + [abs(start) + (n + 1) * abs(tock), Fraction(1)])
+            big = max([abs(x) for x in readings] + [abs(start) + (n + 1) * abs(tock), abs(_fr(o["end_mono"])), Fraction(1)])
             unit = 4 * Fraction(math.ulp(float(big)))
         # (A) never early: true elapsed time at the start of cycle k is at least k tocks
         for k, c in enumerate(o["cycles"] + [{"mono": o["end_mono"], "nlog": len(readings)}]):
@@ -248,6 +248,8 @@ def directed():
         # sleeps that return early (the `while not expired` loop sleeps again), one of them with a step back after it
         _case(1000.0, 1.0, [_run([w(0.125)] * 4)], overs=[["early", 0.25], ["early", 0.5], 0.0, ["early", 0.0], ["early", 2.0], 0.0],
               reads=[Z, Z, Z, Z, Z, Z, (0.0, 0.125)]),
+        # the deadline passes between the `expired` read and the `remaining` read: sleep(0.0) is asked for
+        _case(1000.0, 1.0, [_run([w(0.25)] * 3)], reads=[Z, Z, Z, (2.0, 0.0), Z, Z, (0.5, 0.0), (0.5, 0.0)]),
         # tock 0: never waits; a negative tock is kept as it is (deadlines move backwards, nothing waits)
         _case(10.0, 0.0, [_run([w(0.5)] * 3)]),
         _case(10.0, -0.5, [_run([Z] * 3), _run([Z] * 3, tock=-1.0)]),
@@ -274,12 +276,12 @@ def _gen_case(rng, exact):
         t0 = rng.choice([0.1, 1000.3, 1700000000.123456, rng.uniform(0, 2e9)])
         tocks = [0.1, 0.01, 0.3, 1 / 3, 0.03125, 1.1, rng.uniform(0.001, 3.0), 0.0]
         val = lambda hi: rng.uniform(0, hi)
-    tock0 = rng.choice(tocks) * rng.choice([1, 1, 1, 1, -1])
+    tock0 = rng.choice(tocks) * (-1 if rng.random() < 0.04 else 1)
     nruns = rng.choice([1, 1, 1, 2, 2, 3])
     runs, tock, ncyc = [], abs(tock0), 0
     flavour = rng.choice(["steady", "late", "retro", "mixed", "mixed"])
     for _ in range(nruns):
-        newtock = rng.choice(tocks) * rng.choice([1, 1, 1, -1]) if rng.random() < 0.45 else None
+        newtock = rng.choice(tocks) * (-1 if rng.random() < 0.04 else 1) if rng.random() < 0.45 else None
         if newtock is not None:
             tock = abs(newtock)
         pre = [0.0, 0.0]
@@ -443,3 +445,67 @@ def distribution(cases, obs):
                 d["cycles_multi_sleep"] += len(cy["sleeps"]) > 1
                 d["sleep_calls"] += len(cy["sleeps"])
     return d
+
+
+# --------------------------------------------------------------------------- extra: exhaustive grid + real clock
+
+def _grid(nreads, ctx):
+    """Every environment of a small grid, run on the real code and judged by the oracle: 2 cycles of tock 1,
+    work in {0, 1/2, 3/2} per cycle, each of the first `nreads` clock reads preceded by nothing, 1/4 s of
+    progress or a 3/4 s step back, the first two sleeps exact, 1/2 s over, or returning after 1/4 s."""
+    import itertools
+    n = bad = 0
+    wk = [0.0, 0.5, 1.5]
+    rd = [[0.0, 0.0], [0.25, 0.0], [0.0, 0.75]]
+    ov = [0.0, 0.5, ["early", 0.25]]
+    for w0, w1 in itertools.product(wk, wk):
+        for o0, o1 in itertools.product(ov, ov):
+            for reads in itertools.product(rd, repeat=nreads):
+                case = {"t0": 100.0, "tock0": 1.0, "reads": [list(r) for r in reads], "overs": [o0, o1], "exact": True,
+                        "runs": [{"pre": [0.0, 0.0], "tock": None, "works": [[w0, 0.0], [w1, 0.0]]}]}
+                why = oracle(case, run_impl(case))
+                n += 1
+                if why is not None:
+                    bad += 1
+                    if bad <= 2:
+                        ctx.violations.append({"kind": "oracle-grid", "why": why, "case": case})
+    return n
+
+
+def _real_clock_soak(ctx, cycles, tock):
+    """The real time module: Doist(real=True) paced by the machine's clock; cycle starts are taken from
+    time.monotonic() (a different clock from the time.time() the code reads)."""
+    import time as _time
+    import hio.base.doing as doing
+    marks = []
+
+    class Pacer(doing.Doer):
+        def enter(self, **kwa):
+            self.count = 0
+
+        def recur(self, tyme):
+            marks.append(_time.monotonic())
+            self.count += 1
+            if self.count % 3 == 0:
+                _time.sleep(tock * 1.5)      # a late cycle
+            return self.count >= cycles
+
+    doist = doing.Doist(real=True, tock=tock * 4)
+    doist.tock = tock                         # D4: reassigned before the run
+    t_before = _time.monotonic()
+    doist.do(doers=[Pacer(tock=0.0)])
+    slack = 0.002
+    for k, m in enumerate(marks):
+        if m - marks[0] < k * tock - slack:
+            ctx.violations.append({"kind": "real-clock", "no_input": True, "case": {"cycles": cycles, "tock": tock},
+                                   "why": f"real clock: cycle {k} began {m - marks[0]:.6f} s after cycle 0, earlier than {k} tocks of {tock} s"})
+            break
+    return {"cycles": len(marks), "tock": tock, "span_s": round(marks[-1] - marks[0], 4),
+            "mean_period_s": round((marks[-1] - marks[0]) / max(1, len(marks) - 1), 5)}
+
+
+def extra(tier, ctx):
+    n = _grid(5 if tier == "quick" else 7, ctx)
+    out = {"exhaustive_grid_runs": n, "exhaustive": False}
+    out["real_clock_soak"] = _real_clock_soak(ctx, 12 if tier == "quick" else 60, 0.02)
+    return out
